@@ -1778,12 +1778,119 @@ func kindsOf(v ssa.Value) []string {
 				out = append(out, "?")
 			}
 			out = append(out, ks...)
+		case *ssa.UnOp:
+			// table[c]: a package-level array filled by the initialiser, read at the byte values the
+			// enclosing case admits
+			if ks := arrayTableValuesAt(x); len(ks) > 0 {
+				out = append(out, ks...)
+				return
+			}
+			out = append(out, "?")
 		default:
 			out = append(out, "?")
 		}
 	}
 	walk(v)
 	sort.Strings(out)
+	return out
+}
+
+// arrayTableValuesAt: ld = *(&table[idx]) with table a package-level array that only the package
+// initialiser writes (constant strings at constant positions) and idx a value that, on every way into
+// the block of ld, has just been found equal to a constant (the cases of a switch on idx): the entries
+// at those constants. nil when any of this cannot be established.
+func arrayTableValuesAt(ld *ssa.UnOp) []string {
+	if ld.Op != token.MUL {
+		return nil
+	}
+	ia, ok := ld.X.(*ssa.IndexAddr)
+	if !ok {
+		return nil
+	}
+	g, ok := ia.X.(*ssa.Global)
+	if !ok || g.Pkg == nil {
+		return nil
+	}
+	table := map[int64]string{}
+	okT := true
+	for _, mem := range g.Pkg.Members {
+		f, isF := mem.(*ssa.Function)
+		if !isF {
+			continue
+		}
+		var visit func(fn *ssa.Function)
+		visit = func(fn *ssa.Function) {
+			ir.Instrs(fn, func(in ssa.Instruction) {
+				st, isSt := in.(*ssa.Store)
+				if !isSt {
+					return
+				}
+				a, isIA := st.Addr.(*ssa.IndexAddr)
+				if st.Addr == ssa.Value(g) || (isIA && a.X == ssa.Value(g)) {
+					k, isK := int64(0), false
+					if isIA {
+						k, isK = ir.ConstInt(a.Index)
+					}
+					sv, isS := ir.ConstString(st.Val)
+					if fn.Name() != "init" || !isK || !isS {
+						okT = false
+						return
+					}
+					table[k] = sv
+				}
+			})
+			for _, an := range fn.AnonFuncs {
+				visit(an)
+			}
+		}
+		visit(f)
+	}
+	if !okT || len(table) == 0 {
+		return nil
+	}
+	// the index: which constants can it be here?
+	idx := ia.Index
+	if cv, isConv := idx.(*ssa.Convert); isConv {
+		idx = cv.X
+	}
+	var out []string
+	b := ld.Block()
+	var preds func(b *ssa.BasicBlock, depth int) bool
+	preds = func(b *ssa.BasicBlock, depth int) bool {
+		if len(b.Preds) == 0 || depth > 3 {
+			return false
+		}
+		for _, p := range b.Preds {
+			iff, isIf := p.Instrs[len(p.Instrs)-1].(*ssa.If)
+			if !isIf {
+				// a block that only jumps on
+				if len(p.Instrs) == 1 {
+					if !preds(p, depth+1) {
+						return false
+					}
+					continue
+				}
+				return false
+			}
+			bo, isBo := iff.Cond.(*ssa.BinOp)
+			if !isBo || bo.Op != token.EQL || bo.X != idx || p.Succs[0] != b {
+				return false
+			}
+			k, isK := ir.ConstInt(bo.Y)
+			if !isK {
+				return false
+			}
+			v, has := table[k]
+			if !has {
+				return false // the zero value: no kind
+			}
+			out = append(out, v)
+		}
+		return true
+	}
+	if !preds(b, 0) {
+		return nil
+	}
 	return out
 }
 
